@@ -65,6 +65,11 @@ func Run(ctx *core.Ctx) {
 		"the digest covers what is reachable from the Tofu, the registry, the expression tree and the five public registries; package-level state of robfig/soy not reachable from those is seen only through outputs")
 	ctx.Trusted = append(ctx.Trusted, "Go harness (unparser, digest walker, TLC driver)", "TLC")
 
+	for i, a := range os.Args {
+		if a == "--c08-struct-first" && i+1 < len(os.Args) {
+			StructFirstChild(os.Args[i+1]) // never returns
+		}
+	}
 	if ctx.ReplayPath != "" {
 		replayFile(ctx)
 		return
@@ -149,7 +154,10 @@ func Run(ctx *core.Ctx) {
 
 	// M3: random histories over generated bundles
 	t1 := time.Now()
-	RandomHistories(ctx, ctx.Pick(240, 2400))
+	// struct-data histories (process-wide converter state); their map-equivalent
+	// renders are validated by TLC together with the random ones
+	extra := StructHistories(ctx, ctx.Pick(3, 4))
+	RandomHistories(ctx, ctx.Pick(240, 2400), extra)
 	ctx.Extra["m3_wall_s"] = time.Since(t1).Seconds()
 }
 
@@ -523,6 +531,38 @@ func replayFile(ctx *core.Ctx) {
 		return
 	}
 	r := v.Replay
+	if r.Kind == "struct-history" {
+		var names []string
+		for _, s := range r.History {
+			names = append(names, s.Op.D)
+		}
+		_, in := structInputs()
+		var ops []Op
+		for _, sv := range structValues {
+			ops = append(ops, Op{Op: "render", T: "s.row", D: sv.name})
+		}
+		byMapK, err := FreshOutcomes(in, ops)
+		if err != nil {
+			ctx.ToolError("replay: %v", err)
+			return
+		}
+		byMap := map[string]Obs{}
+		for i, sv := range structValues {
+			byMap[sv.name] = byMapK[ops[i].Key()]
+		}
+		ctx.Rule = "replay of one saved struct-data history (in a fresh process)"
+		ctx.AddEvals(int64(len(names)))
+		ctx.AddTraces(1)
+		ctx.Distinct(strings.Join(names, ","))
+		ctx.Sample(names)
+		if f := runStructHistory(in, names, byMap, map[string]Obs{}); f != nil {
+			r.FailedAt, r.What, r.Observed = f.step+1, f.what, f.obs
+			ctx.Violation(f.sig, f.what, r)
+		} else {
+			fmt.Println("replay: the history passes")
+		}
+		return
+	}
 	restore, err := Install(r.Cfg)
 	if err != nil {
 		ctx.ToolError("replay: %v", err)
